@@ -1,8 +1,11 @@
 package c04
 
 import (
+	"bytes"
 	"context"
+	"errors"
 	"fmt"
+	"io"
 	"net/http"
 	"strings"
 	"time"
@@ -21,9 +24,11 @@ const (
 	sGate        // ignore the context: block until the run's main task lets go (after the wrappers returned)
 	sPanic
 	sYield
+	sCopy // write body bytes through io.Copy & co. from a scripted source reader
+	sCtl  // a call on http.NewResponseController(rw)
 )
 
-var kindName = [...]string{"write", "sethdr", "sleep", "writeheader", "abort-if-done", "wait-done", "gate", "panic", "yield"}
+var kindName = [...]string{"write", "sethdr", "sleep", "writeheader", "abort-if-done", "wait-done", "gate", "panic", "yield", "copy", "ctl"}
 
 type step struct {
 	kind  int
@@ -32,12 +37,144 @@ type step struct {
 	code  int
 	chunk chunk
 	d     time.Duration
+	via   int      // sWrite: 0 rw.Write(p), 1 io.WriteString(rw, s)
+	src   *srcPlan // sCopy
+	ctl   int      // sCtl: which ResponseController method
+}
+
+// ways of an sCopy step to move the source's bytes into the ResponseWriter
+const (
+	cpCopy     = iota // io.Copy(rw, src)
+	cpCopyN           // io.CopyN(rw, src, limit)
+	cpReadFrom        // rw.(io.ReaderFrom).ReadFrom(src) when the writer offers it, io.Copy otherwise
+	cpBuffer          // io.CopyBuffer(rw, src, buf) with a buffer of bufSize bytes
+	cpWriterTo        // io.Copy(rw, bytes.NewReader(...)): the source offers io.WriterTo, one Write of everything
+	cpModes
+)
+
+var cpName = [...]string{"io.Copy", "io.CopyN", "ReadFrom", "io.CopyBuffer", "io.Copy<-bytes.Reader"}
+
+var ctlName = [...]string{"Flush", "SetWriteDeadline", "SetReadDeadline", "EnableFullDuplex"}
+
+// srcPiece is one delivery of a source reader: before its n bytes become readable the
+// reader pauses (virtual time) or stalls until the run's main task releases the gate.
+type srcPiece struct {
+	n     int
+	pause time.Duration
+	stall bool
+}
+
+// srcPlan describes the source of one sCopy step: pattern[off:off+total] delivered in pieces,
+// then io.EOF (or errSrc).  A piece of 0 bytes is a pause (or stall) before the end.
+type srcPlan struct {
+	mode    int
+	off     int
+	total   int
+	pieces  []srcPiece
+	endErr  bool  // the source ends with errSrc instead of io.EOF
+	limit   int64 // cpCopyN
+	bufSize int   // cpBuffer
+}
+
+var errSrc = errors.New("source-reader-broke")
+
+func (p *srcPlan) String() string {
+	var b strings.Builder
+	fmt.Fprintf(&b, "%s(pattern[%d:+%d]", cpName[p.mode], p.off, p.total)
+	switch p.mode {
+	case cpCopyN:
+		fmt.Fprintf(&b, " limit=%d", p.limit)
+	case cpBuffer:
+		fmt.Fprintf(&b, " buf=%d", p.bufSize)
+	}
+	if p.mode != cpWriterTo {
+		b.WriteString(" pieces:")
+		for _, pc := range p.pieces {
+			switch {
+			case pc.stall:
+				fmt.Fprintf(&b, " stall>%d", pc.n)
+			case pc.pause > 0:
+				fmt.Fprintf(&b, " %v>%d", pc.pause, pc.n)
+			default:
+				fmt.Fprintf(&b, " %d", pc.n)
+			}
+		}
+		if p.endErr {
+			b.WriteString(" then-error")
+		}
+	}
+	return b.String() + ")"
+}
+
+// srcReader is the running source of one sCopy step.  It only offers Read, so io.Copy takes
+// the destination's io.ReaderFrom when there is one and its own 32 KB loop otherwise.  Read
+// runs on the task of the work (inside the copy), pauses are virtual time.
+type srcReader struct {
+	k       *work
+	pl      *srcPlan
+	i       int  // current piece
+	entered bool // the current piece's pause is over
+	rem     int  // bytes left in the current piece
+	pos     int  // bytes delivered in all
+}
+
+func (s *srcReader) Read(p []byte) (int, error) {
+	k := s.k
+	w, r := k.w, k.w.r
+	if len(p) == 0 {
+		return 0, nil
+	}
+	for {
+		if s.i >= len(s.pl.pieces) {
+			if s.pl.endErr {
+				r.Probe("copy-source-ended-with-error")
+				return 0, errSrc
+			}
+			return 0, io.EOF
+		}
+		pc := s.pl.pieces[s.i]
+		if !s.entered {
+			s.entered, s.rem = true, pc.n
+			switch {
+			case pc.stall:
+				k.atGate = true
+				w.gateUsed = true
+				w.nGated++
+				r.Probe("copy-source-stalled-until-end-of-run")
+				simrt.Recv("work.src.gate", w.gate)
+			case pc.pause > 0:
+				if now := time.Now(); k.dlOK && now.Before(k.dlSeen) && !now.Add(pc.pause).Before(k.dlSeen) {
+					r.Probe("copy-source-pause-straddles-deadline")
+				}
+				r.Sleep(pc.pause)
+			}
+		}
+		if s.rem == 0 {
+			s.i, s.entered = s.i+1, false
+			continue
+		}
+		n := min(len(p), s.rem)
+		copy(p, pattern[s.pl.off+s.pos:s.pl.off+s.pos+n])
+		s.pos += n
+		s.rem -= n
+		if s.rem == 0 {
+			s.i, s.entered = s.i+1, false
+		}
+		return n, nil
+	}
 }
 
 func (s step) String() string {
 	switch s.kind {
 	case sWrite:
+		if s.via == 1 {
+			return "writestring(" + s.chunk.String() + ")"
+		}
 		return "write(" + s.chunk.String() + ")"
+	case sCopy:
+		return s.src.String()
+	case sCtl:
+		return "ctl." + ctlName[s.ctl]
 	case sSetHdr:
 		return fmt.Sprintf("sethdr(%s=%s)", s.key, abbrevVals(s.vals))
 	case sSleep:
@@ -70,6 +207,8 @@ type work struct {
 	aborted  bool
 	panicked bool
 	atGate   bool
+	inCopy   bool // the work is inside an sCopy step right now
+	copied   int  // body bytes accepted through sCopy steps
 	tStart   time.Time
 	tFin     time.Time
 	dlSeen   time.Time
@@ -198,6 +337,7 @@ const planDen = 16
 
 type scriptOpts struct {
 	rest      bool // may touch a ResponseWriter
+	stuck     bool // a call of the history: a short prefix, then the work ignores the context until the end of the run
 	gate      bool // may ignore the context forever (only where the wrapper must not wait for the work)
 	observe   bool // may look at the context (there is one)
 	waitDone  bool // may block until the context ends (only if it is certain to end)
@@ -209,10 +349,17 @@ var statusCodes = []int{201, 200, 204, 400, 404, 500, 503, 499, 302}
 
 func genScript(t *simrt.Tape, id int, o scriptOpts) []step {
 	var plan bodyPlan
-	if o.rest {
+	// fast: 0 the script only calls Write (as before), 1 steps that write through the optional
+	// fast paths of the writer are mixed in, 2 they also replace half of the plain write steps
+	fast := 0
+	if o.rest && !o.stuck {
 		plan = genBodyPlan(t)
+		fast = t.Intn(3)
 	}
 	n := t.Range(0, o.maxSteps+plan.moreSteps)
+	if o.stuck {
+		n = t.Intn(4)
+	}
 	var sc []step
 	var cum time.Duration
 	nchunk, nhdr, patUsed := 0, 0, 0
@@ -226,12 +373,9 @@ func genScript(t *simrt.Tape, id int, o scriptOpts) []step {
 	if plan.uniform {
 		cls = append(cls, 3)
 	}
-	// one Write call of the script
-	write := func() {
-		if nchunk >= maxChunks {
-			return
-		}
-		size := -1 // literal
+	// the size of a pattern chunk drawn from the plan's classes; -1: none (a short literal)
+	drawSize := func() int {
+		size := -1
 		if len(cls) > 0 {
 			if v := t.Intn(1 + len(cls)); v > 0 {
 				switch cls[v-1] {
@@ -247,15 +391,27 @@ func genScript(t *simrt.Tape, id int, o scriptOpts) []step {
 		if size > maxBody-patUsed {
 			size = -1
 		}
+		return size
+	}
+	// one Write call of the script
+	write := func() {
+		if nchunk >= maxChunks {
+			return
+		}
+		size := drawSize()
+		via := 0
+		if fast > 0 && t.Chance(1, 3) {
+			via = 1
+		}
 		if size >= 0 {
-			sc = append(sc, step{kind: sWrite, chunk: chunk{pat: true, off: patBase(id) + patUsed, n: size}})
+			sc = append(sc, step{kind: sWrite, via: via, chunk: chunk{pat: true, off: patBase(id) + patUsed, n: size}})
 			patUsed += size
 		} else {
 			c := chunkMarker(id, nchunk)
 			if t.Chance(1, 4) {
 				c += strings.Repeat("x", t.Range(1, 40))
 			}
-			sc = append(sc, step{kind: sWrite, chunk: chunk{lit: c}})
+			sc = append(sc, step{kind: sWrite, via: via, chunk: chunk{lit: c}})
 		}
 		nchunk++
 	}
@@ -297,10 +453,78 @@ func genScript(t *simrt.Tape, id int, o scriptOpts) []step {
 		cum += d
 		return step{kind: sSleep, d: d}
 	}
+	// one sCopy step: a source of 1-4 pieces (sizes: 1-96 bytes or one of the plan's classes) with
+	// pauses drawn like the sleeps (so that one of them can straddle the deadline), stalls until
+	// the end of the run where the wrapper must not wait for the work, a pause before the end.
+	// forceStall: the first piece stalls (the "never returns" part of a history call).
+	copyStep := func(forceStall bool) {
+		if nchunk >= maxChunks || maxBody-patUsed < 1<<10 {
+			sc = append(sc, step{kind: sYield})
+			return
+		}
+		pl := &srcPlan{mode: t.Intn(cpModes), off: patBase(id) + patUsed}
+		if forceStall && pl.mode == cpWriterTo {
+			pl.mode = cpCopy // a bytes.Reader cannot stall
+		}
+		for j, np := 0, t.Range(1, 4); j < np; j++ {
+			size := drawSize()
+			if size <= 0 {
+				size = t.Range(1, 96)
+			}
+			if size > maxBody-patUsed-pl.total-64 {
+				size = 1
+			}
+			pc := srcPiece{n: size}
+			switch v := t.Intn(8); {
+			case forceStall && j == 0:
+				pc.stall = true
+			case v < 4:
+			case v < 7:
+				pc.pause = sleep().d
+			default:
+				if o.gate {
+					pc.stall = true
+				}
+			}
+			pl.pieces = append(pl.pieces, pc)
+			pl.total += size
+		}
+		if pl.total < 32 {
+			// at least two pattern records, so that the bytes carry workMark
+			pl.pieces[0].n += 32 - pl.total
+			pl.total = 32
+		}
+		if t.Chance(1, 4) {
+			pl.pieces = append(pl.pieces, srcPiece{pause: sleep().d})
+		}
+		pl.endErr = t.Chance(1, 8)
+		switch pl.mode {
+		case cpCopyN:
+			pl.limit = int64([...]int{pl.total, pl.total - 1, pl.total + 1, pl.total / 2}[t.Intn(4)])
+		case cpBuffer:
+			pl.bufSize = [...]int{512, 16, 4096, 65536}[t.Intn(4)]
+			for pl.total/pl.bufSize > 1024 {
+				pl.bufSize *= 8
+			}
+		}
+		patUsed += pl.total
+		nchunk++
+		sc = append(sc, step{kind: sCopy, src: pl})
+	}
 	for i := 0; i < n; i++ {
 		var k int
 		if o.rest {
-			switch v := t.Intn(18); {
+			kinds := 18
+			if fast > 0 {
+				kinds = 22
+			}
+			switch v := t.Intn(kinds); {
+			case v >= 21:
+				k = sCtl
+			case v >= 18:
+				k = sCopy
+			case v < 4 && fast == 2 && t.Bool():
+				k = sCopy
 			case v < 4:
 				k = sWrite
 			case v < 6:
@@ -339,6 +563,9 @@ func genScript(t *simrt.Tape, id int, o scriptOpts) []step {
 		if (k == sGate && !o.gate) || (k == sWaitDone && !(o.waitDone && o.observe)) || (k == sAbortIfDone && !o.observe) {
 			k = sSleep
 		}
+		if o.stuck && (k == sGate || k == sPanic || k == sAbortIfDone) {
+			k = sYield // the prefix of a history call neither ends the work nor parks it: the gate comes last
+		}
 		switch k {
 		case sWrite:
 			write()
@@ -363,11 +590,28 @@ func genScript(t *simrt.Tape, id int, o scriptOpts) []step {
 			if cum < E {
 				cum = E
 			}
+		case sCopy:
+			copyStep(false)
+		case sCtl:
+			sc = append(sc, step{kind: sCtl, ctl: t.Intn(len(ctlName))})
 		default:
 			sc = append(sc, step{kind: k})
 		}
 		if k == sPanic {
 			break
+		}
+	}
+	if o.stuck {
+		// the work ignores its context and is still running when the later calls are judged: it
+		// parks at the gate (REST: or inside a copy whose source stalls) until the end of the run,
+		// then REST work goes on writing to a writer whose response is long over
+		if o.rest && t.Intn(3) == 2 {
+			copyStep(true)
+		} else {
+			sc = append(sc, step{kind: sGate})
+		}
+		if o.rest && t.Bool() {
+			write()
 		}
 	}
 	return sc
@@ -408,7 +652,17 @@ func (k *work) run(ctx context.Context, rw http.ResponseWriter) {
 	for _, s := range k.script {
 		switch s.kind {
 		case sWrite:
-			_, err := rw.Write(s.chunk.bytes())
+			var err error
+			if s.via == 1 && s.chunk.size() <= 64<<10 {
+				// io.WriteString takes the writer's io.StringWriter when it offers one
+				if _, ok := rw.(io.StringWriter); ok {
+					r.Probe("rest-writer-offers-io.StringWriter")
+				}
+				r.Probe("work-wrote-through-io.WriteString")
+				_, err = io.WriteString(rw, string(s.chunk.bytes()))
+			} else {
+				_, err = rw.Write(s.chunk.bytes())
+			}
 			k.acts = append(k.acts, act{kind: sWrite, chunk: s.chunk, err: err})
 			if err != nil {
 				k.wErrs++
@@ -416,6 +670,25 @@ func (k *work) run(ctx context.Context, rw http.ResponseWriter) {
 			}
 			if r.Tracing() {
 				r.Logf("#%d work %d Write(%s) -> %v", w.tick(), k.id, s.chunk, err)
+			}
+		case sCopy:
+			k.copy(rw, s.src)
+		case sCtl:
+			rc := http.NewResponseController(rw)
+			var err error
+			switch s.ctl {
+			case 0:
+				err = rc.Flush() // the client connection of this harness is no http.Flusher: nothing can be streamed
+			case 1:
+				err = rc.SetWriteDeadline(time.Now().Add(time.Hour))
+			case 2:
+				err = rc.SetReadDeadline(time.Now().Add(time.Hour))
+			default:
+				err = rc.EnableFullDuplex()
+			}
+			r.Probe("work-called-response-controller")
+			if r.Tracing() {
+				r.Logf("#%d work %d ResponseController.%s -> %v", w.tick(), k.id, ctlName[s.ctl], err)
 			}
 		case sSetHdr:
 			rw.Header()[s.key] = append([]string(nil), s.vals...)
@@ -445,6 +718,7 @@ func (k *work) run(ctx context.Context, rw http.ResponseWriter) {
 		case sGate:
 			k.atGate = true
 			w.gateUsed = true
+			w.nGated++
 			simrt.Recv("work.gate", w.gate)
 		case sPanic:
 			k.panicked, k.tFin = true, time.Now()
@@ -457,6 +731,53 @@ func (k *work) run(ctx context.Context, rw http.ResponseWriter) {
 	}
 	k.finished, k.tFin = true, time.Now()
 	r.Ev("work-end", int64(k.id))
+}
+
+// copy is one sCopy step: the bytes of a fresh source go into rw the way the plan says.  The
+// bytes that count as written are those the copy function acknowledged; when the copy ended
+// without a writer error (nil, or the source's own end: io.EOF for CopyN, errSrc) these are by
+// the contract of io.Writer / io.ReaderFrom all the bytes the source delivered.
+func (k *work) copy(rw http.ResponseWriter, pl *srcPlan) {
+	w, r := k.w, k.w.r
+	src := &srcReader{k: k, pl: pl}
+	var nw int64
+	var err error
+	k.inCopy = true
+	r.Probe("work-copied-from-source-reader")
+	switch pl.mode {
+	case cpCopy:
+		nw, err = io.Copy(rw, src)
+	case cpCopyN:
+		nw, err = io.CopyN(rw, src, pl.limit)
+	case cpReadFrom:
+		if rf, ok := rw.(io.ReaderFrom); ok {
+			r.Probe("rest-writer-offers-io.ReaderFrom")
+			nw, err = rf.ReadFrom(src)
+		} else {
+			nw, err = io.Copy(rw, src)
+		}
+	case cpBuffer:
+		nw, err = io.CopyBuffer(rw, src, make([]byte, pl.bufSize))
+	default:
+		nw, err = io.Copy(rw, bytes.NewReader(pattern[pl.off:pl.off+pl.total:pl.off+pl.total]))
+		if err == nil {
+			src.pos = pl.total
+		}
+	}
+	k.inCopy = false
+	n := int(nw)
+	if err == nil || err == errSrc || (err == io.EOF && pl.mode == cpCopyN) {
+		n, err = src.pos, nil
+		k.copied += n
+	} else {
+		k.wErrs++
+		r.Probe("work-write-rejected")
+		r.Probe("work-copy-rejected")
+	}
+	k.acts = append(k.acts, act{kind: sWrite, chunk: chunk{pat: true, off: pl.off, n: n}, err: err})
+	if r.Tracing() {
+		r.Logf("#%d work %d %s -> written %d, source delivered %d, %v", w.tick(), k.id, pl, nw, src.pos, err)
+	}
 }
 
 // panicMatches reports whether a value recovered from the wrapper is this work's panic
